@@ -17,6 +17,11 @@ import CV.Proofs.StoreCatCex
 import CV.Proofs.StoreCatRename
 import CV.Proofs.StoreCatUsage
 import CV.Proofs.StoreCatSync
+import CV.Proofs.StoreCatUsageT
+import CV.Proofs.StoreCatUsageC
+import CV.Proofs.StoreCatDerived
+import CV.Proofs.StoreCatUsageK
+import CV.Proofs.StoreCatUsageN
 namespace CV.Props.C07
 open CV CV.Store
 
@@ -196,7 +201,7 @@ theorem vip_unique_reachable (log : XLog) : VipWF (replayX XState.empty log) := 
 
 /-- the same invariant is inductive: any command preserves it from any state -/
 theorem vip_unique_step {s : XState} (idx : Nat) (c : XCmd) (hs : VipWF s) : VipWF (applyX s idx c).1 :=
-  vc_applyX vipWF_closed vipWF_usage idx c hs
+  vc_applyX vipWF_closed vipWF_usage vipWF_cfg idx c hs
 
 /-- FULL-STRENGTH `vipWellFormed` fails: "a virtual IP advertised by any catalog instance equals its service's
     current assignment" is false in a reachable state (the address is freed when no instance NAMED like the
@@ -239,6 +244,146 @@ theorem usage_nodes_exact_partial (log : XLog) (hwf : XLog.wf log) :
   rw [h]
   simp [usageOf]
 
+/-! ### round 2: the derived views against their recomputation, in every reachable state
+
+The model carries a GHOST record (`XState.ghost`; no function reads it, the store has no counterpart, the engine does
+not print it): the keys of derived rows at the moments one of the recorded mechanisms fires —
+  * `freedAdvertised`: `freeServiceVirtualIP` frees an assignment while a catalog row advertises its address;
+  * `staleKsn`: (a) a local instance is re-registered under another kind / name / Connect name (its old keys),
+    (b) an instance is deregistered while instances of its name remain, none of its kind (its (kind, name) key),
+    (c) a service-defaults entry with a Destination is overwritten by one without (the destination key).
+The theorems below say: a derived row can disagree with the recomputation ONLY at a key listed there. -/
+
+/-- hypothesis of the derived-view theorems on a log: the kind of every registered instance is one of the six kinds
+    an instance can have (not the two names of derived rows), the kinds of config entries are lower-case and NUL-free
+    (every kind consul knows is). No hypothesis on node names. -/
+def LogOk (log : XLog) : Prop := XLog.reqOk SvcReq.real log
+
+/-- **Virtual IPs, precisely**: in every reachable state, the virtual IP a catalog row (local or imported) advertises
+    is its service's current assignment — or the assignment's key is one that was freed while a row advertised it. -/
+theorem vip_agrees_or_freed_reachable (log : XLog) (hw : LogOk log) :
+    let s := replayX XState.empty log
+    ∀ q, ∀ r ∈ (s.cat q).rows, ∀ ip sn, r.2.vip = some ip → connectName r = some sn →
+      (∃ a ∈ s.vips, a.pk = vipKey q sn ∧ a.ip = ip) ∨ vipKey q sn ∈ s.ghost.freedAdvertised :=
+  (dinv_replayX log hw).vip
+
+/-- PARTIAL (log hypothesis "no assignment was freed while advertised" — the one known mechanism): the
+    FULL-STRENGTH `vipWellFormed` holds in the state reached. -/
+theorem vip_wellformed_partial (log : XLog) (hw : LogOk log)
+    (hfree : (replayX XState.empty log).ghost.freedAdvertised = []) : vipWellFormed (replayX XState.empty log) := by
+  have hv := vipWF_replayX log
+  refine ⟨hv.nodup, hv.free_not_assigned, ?_⟩
+  intro q r hr ip hip sn hsn
+  rcases (dinv_replayX log hw).vip q r hr ip sn hip hsn with h | h
+  · exact h
+  · rw [hfree] at h; cases h
+
+/-- **kind-service-names is complete**: in every reachable state every pair the registrations and config entries
+    give — each local instance under its kind, each name served through Connect under connect-enabled, each
+    service-defaults Destination — has its row. -/
+theorem kind_names_complete_reachable (log : XLog) (hw : LogOk log) :
+    let s := replayX XState.empty log
+    ∀ k n, (k, n) ∈ kindNamesOf s → ∃ x ∈ s.kindNames, x.kind = k ∧ lc x.name = n := by
+  intro s k n h
+  have hc := (dinv_replayX log hw).complete
+  unfold kindNamesOf at h
+  simp only [List.mem_append, List.mem_map, List.mem_filterMap] at h
+  rcases h with (⟨r, hr, he⟩ | ⟨r, hr, he⟩) | ⟨c, hcm, he⟩
+  · simp only [Prod.mk.injEq] at he
+    obtain ⟨x, hx, h1, h2⟩ := hc.inst r hr
+    exact ⟨x, hx, h1.trans he.1, h2.trans he.2⟩
+  · cases hq : connectName r with
+    | none => rw [hq] at he; simp at he
+    | some m =>
+      rw [hq] at he
+      simp only at he
+      split at he
+      · simp at he
+      · next hne =>
+        simp only [Option.some.injEq, Prod.mk.injEq] at he
+        obtain ⟨x, hx, h1, h2⟩ := hc.conn r hr m hq hne
+        exact ⟨x, hx, h1.trans he.1, h2.trans he.2⟩
+  · split at he
+    · next hcond =>
+      simp only [Option.some.injEq, Prod.mk.injEq] at he
+      obtain ⟨x, hx, h1, h2⟩ := hc.dest c hcm hcond.1 hcond.2
+      exact ⟨x, hx, h1.trans he.1, h2.trans he.2⟩
+    · simp at he
+
+theorem ksnJust_mem {s : XState} {x : KsnRow} (h : KsnJust s x) : (x.kind, lc x.name) ∈ kindNamesOf s := by
+  unfold kindNamesOf
+  simp only [List.mem_append, List.mem_map, List.mem_filterMap]
+  rcases h with ⟨r, hr, h1, h2⟩ | ⟨hk, r, hr, n, hc, hne, hn⟩ | ⟨hk, c, hc, h1, h2, h3⟩
+  · exact Or.inl (Or.inl ⟨r, hr, by rw [h1, h2]⟩)
+  · exact Or.inl (Or.inr ⟨r, hr, by rw [hc]; simp only [hne, if_false, hk, hn]⟩)
+  · exact Or.inr ⟨c, hc, by rw [if_pos ⟨h1, h2⟩, hk, h3]⟩
+
+/-- **kind-service-names is sound, or known**: in every reachable state every row is justified by a local instance /
+    a Connect name / a service-defaults Destination — or its key is one the three recorded mechanisms left behind. -/
+theorem kind_names_sound_or_known_reachable (log : XLog) (hw : LogOk log) :
+    let s := replayX XState.empty log
+    ∀ x ∈ s.kindNames, (x.kind, lc x.name) ∈ kindNamesOf s ∨ x.pk ∈ s.ghost.staleKsn := by
+  intro s x hx
+  rcases (dinv_replayX log hw).sound x hx with h | h
+  · exact Or.inl (ksnJust_mem h)
+  · exact Or.inr h
+
+/-- PARTIAL (log hypothesis "none of the recorded mechanisms fired"): the FULL-STRENGTH `KindNamesExact` holds. -/
+theorem kind_names_exact_partial (log : XLog) (hw : LogOk log)
+    (hstale : (replayX XState.empty log).ghost.staleKsn = []) : KindNamesExact (replayX XState.empty log) := by
+  intro k n
+  constructor
+  · rintro ⟨x, hx, rfl, rfl⟩
+    rcases kind_names_sound_or_known_reachable log hw x hx with h | h
+    · exact h
+    · rw [hstale] at h; cases h
+  · intro h
+    obtain ⟨x, hx, h1, h2⟩ := kind_names_complete_reachable log hw k n h
+    exact ⟨x, hx, h1, h2⟩
+
+/-- **Usage counters, exact in every reachable state**: `nodes`, `services`, `connect-mesh-<kind>` for the five
+    non-typical kinds and `connect-mesh-connect-native` equal their recomputation from the local catalog
+    (hypothesis: NUL-free node names, as for the catalog invariant). -/
+theorem usage_catalog_exact_reachable (log : XLog) (hwf : XLog.wf log) :
+    let s := replayX XState.empty log
+    usageGet s "nodes" = usageOf s "nodes" ∧ usageGet s "services" = usageOf s "services" ∧
+    (∀ k ∈ [Kind.connectProxy, .meshGateway, .terminatingGateway, .ingressGateway, .apiGateway],
+      usageGet s (connectUsageName k.raw) = (s.loc.rows.filter fun r => r.2.kind == k).length) ∧
+    usageGet s "connect-mesh-connect-native" = usageOf s "connect-mesh-connect-native" := by
+  intro s
+  have h := usageInv_replayX log XState.empty hwf CatOK.empty SyncAll.empty UsageInv.empty
+  refine ⟨by rw [h.nodes]; simp [usageOf, s], by rw [h.services]; simp [usageOf, s], ?_, ?_⟩
+  · intro k hk
+    refine h.kind k ?_
+    intro hh; subst hh; simp at hk
+  · have := h.native
+    simp only [connectUsageName] at this
+    simp only [usageOf]
+    exact this
+
+/-- **`config-entries-<kind>` is exact in every reachable state**, for every lower-case kind (hypothesis: the kinds of
+    the config entries the log writes are lower-case and NUL-free). -/
+theorem usage_config_exact_reachable (log : XLog) (hw : XLog.cfgWf log) (k : String) (hk : lc k = k) :
+    let s := replayX XState.empty log
+    usageGet s ("config-entries-" ++ k) = (s.cfg.filter fun c => c.kind == k).length :=
+  usage_cfg_replayX k hk log XState.empty hw CfgOk.empty (by simp [usageGet, XState.empty, tfind])
+
+/-- **`kvs` is exact in every reachable state** (no hypothesis on the log): the counter equals the number of rows of
+    the KV table. -/
+theorem usage_kvs_exact_reachable (log : XLog) :
+    usageGet (replayX XState.empty log) "kvs" = usageOf (replayX XState.empty log) "kvs" := by
+  have h := usage_kvs_replayX log XState.empty (by simp [KvQ, KvSorted, XState.empty]) (by simp [usageGet, XState.empty, tfind])
+  rw [h]; simp [usageOf]
+
+/-- PARTIAL (`service-names`; log hypothesis `CaseOkAlong`: in no transaction of the run do the local catalog before
+    and after together hold two service names that differ only by case — the one known mechanism,
+    `usage_exact_counterexample`): the counter equals the number of distinct service names in the state reached. -/
+theorem usage_service_names_exact_partial (log : XLog) (hwf : XLog.wf log) (hcase : CaseOkAlong XState.empty log) :
+    usageGet (replayX XState.empty log) "service-names" = usageOf (replayX XState.empty log) "service-names" := by
+  have h := usage_names_replayX log XState.empty hwf CatOK.empty SyncAll.empty hcase
+    (by simp [usageGet, XState.empty, tfind, lcNames])
+  rw [h]; simp [usageOf, localServiceNames, lcNames]
+
 /-! ### non-vacuity -/
 
 /-- a well-formed log exists that exercises registration, a sidecar, a check, a coordinate and a
@@ -259,5 +404,13 @@ theorem sampleLog_wf : XLog.wf sampleLog := by
   intro ic hic
   simp only [sampleLog, List.mem_cons, List.mem_nil_iff, or_false] at hic
   rcases hic with rfl | rfl | rfl | rfl | rfl <;> simp only [XCmd.wf] <;> exact NF_of_toList (by decide)
+
+/-- the same log satisfies the hypothesis of the derived-view theorems -/
+theorem sampleLog_ok : LogOk sampleLog := by
+  intro ic hic
+  simp only [sampleLog, List.mem_cons, List.mem_nil_iff, or_false] at hic
+  rcases hic with rfl | rfl | rfl | rfl | rfl <;> simp only [XCmd.reqOk]
+  · intro q hq; simp at hq; subst hq; exact ⟨by decide, by decide⟩
+  · intro q hq; simp at hq; subst hq; exact ⟨by decide, by decide⟩
 
 end CV.Props.C07
